@@ -229,6 +229,12 @@ def snapshot(node, prev: Optional[Dict[Key, Dict]] = None) -> Dict[Key, Dict]:
     return out
 
 
+def recreated(was: Dict, now: Dict) -> bool:
+    """The name was deleted (not visible to any agent) and a different, new object now carries it: a new item, not a
+    change of the old one (e.g. the database restore re-creating a deleted database folder and file)."""
+    return was["del"] and not now["del"] and was["id"] != now["id"]
+
+
 def kind_of(key: Key) -> str:
     return {"sw": "software", "fo": "folder", "fi": "file"}[key[0]]
 
@@ -489,7 +495,7 @@ def run_case(case: Dict) -> CaseResult:
             if key[0] == "node" or key not in prev:
                 continue
             was = prev[key]
-            if was["v"] == now["v"]:
+            if was["v"] == now["v"] or recreated(was, now):
                 continue
             kd = kind_of(key)
             instant = ok and (
@@ -546,7 +552,7 @@ def run_case(case: Dict) -> CaseResult:
             if key[0] in ("node", "fo") or key not in prev:
                 continue
             was = prev[key]
-            if was["a"] == now["a"] and was["del"] == now["del"]:
+            if (was["a"] == now["a"] and was["del"] == now["del"]) or recreated(was, now):
                 continue
             kd = kind_of(key)
             health_changed = was["a"] != now["a"]
